@@ -20,7 +20,7 @@ RULE = ('one case = (program, settings incl. plug constructor faults and test_st
         'record handed over and the post-return state are judged; (race) two threads call '
         'execute() on one Test, the first paused at every line of its path through '
         'test_descriptor.py while the second makes its call; (abort_sched) one complete abort '
-        'while a framework thread is paused at a line reached by the C04 program family; distinct = distinct '
+        'while a framework thread is paused at a line reached by the C04 program family; (two_sigint) two Tests at once, one on the main thread, and one or two real SIGINTs (at once / after the other test finished / inside the first handler), each schedule in a child process; distinct = distinct '
         'case; non-trivial = at least one callback call was observed and judged')
 ASSUMPTIONS = [
     'a "callback that raises" raises an Exception subclass (BaseException terminates the process)',
